@@ -385,6 +385,7 @@ impl Check for Routing {
             machines.push(Machine::new().with(Pci::new(rt.nets.iter().map(|s| nets[*s].clone()))).with(Ipv4::new(own)).with(Arp::new()).with(ArpRouter::new(table, local_ips)).arc());
         }
         let horizon = Duration::from_secs(40);
+        let _release = ReleaseOnDrop(machines.clone());
         let (_st, panics): (Option<_>, _) = run_virtual(async { run_internet_with_timeout(&machines, horizon).await });
         let frames = wire.snapshot();
         let recs = log.lock().unwrap().clone();
